@@ -52,7 +52,9 @@ class ASTWalker:
         if isinstance(node, MypyFile):
             definitions = get_mypyfile_definitions(node)
             child_nodes = [
-                _def for _def in definitions if _def.__class__.__name__ in {"FuncDef", "ClassDef", "Decorator"}
+                _def
+                for _def in definitions
+                if _def.__class__.__name__ in {"FuncDef", "ClassDef", "Decorator", "OverloadedFuncDef"}
             ]
         elif isinstance(node, ClassDef):
             definitions = get_classdef_definitions(node)
